@@ -10,3 +10,7 @@ package program
 
 //@ func (program.Constant).GetType
 //@   pure
+
+// parsing the variables of a request only builds a fresh map and (as upstream does) consumes the caller's map
+//@ func (*program.Program).ParseVariablesJSON
+//@   modifies map[string]string, map[string]machine.Value
